@@ -114,7 +114,11 @@ def h_op(eng, params):
     tr = None
     exc = None
     if op == 'connect':
-        tr = scen.connect(w, c)
+        if ok:
+            tr = scen.connect(w, c)
+        else:
+            # a stray connect() with settings that differ from the live connection's (clean session, 3.1.1)
+            tr = scen.connect(w, c, 0, False, 31)
     elif op == 'disconnect':
         r, exc = w.call(c, 'disconnect')
     elif op == 'publish':
@@ -172,6 +176,18 @@ def h_op(eng, params):
         w.advance(500)
         eng.check(not has_mark(w, c, mark), 'refused-op-leaked', 'a packet of the refused %s() was written later' % op,
                   sig='refused-op-leaked:%s:%s:%s' % (op, profile, state))
+        if op == 'connect' and state == 'connected':
+            # the refused call changed nothing: retransmissions still follow protocol 3.1.1, and the (clean) session still
+            # fails its pending requests when the connection is lost
+            pk, perr = parse_writes(w, c, v31=False)
+            eng.check(pk is not None, 'refused-op-reconfigured', 'after a refused connect() the client wrote a packet that is malformed under 3.1.1: %s' % perr,
+                      sig='refused-op-reconfigured:wire')
+            w.begin_step('lose-after')
+            w.lose(c)
+            for tag, tr_ in req.items():
+                if tr_ is not None and tag != 'connect':
+                    eng.check(len(tr_.fired) == 1, 'refused-op-reconfigured', 'after a refused connect(cleanStart=False) the clean session kept %s pending at the loss' % tag,
+                              sig='refused-op-reconfigured:session')
     check_no_exceptions(w)
     return w.trace()
 
